@@ -284,6 +284,9 @@ class NodeExpandedDiGraph(nx.DiGraph):
         
         if len(subpath_constraints) == 0:
             return []
+        if any(len(constraint) == 0 for constraint in subpath_constraints):
+            utils.logger.error(f"{__name__}: Every subpath constraint must have at least one element.")
+            raise ValueError("Every subpath constraint must have at least one element.")
         
         if isinstance(subpath_constraints[0][0], str):
             return self._get_expanded_subpath_constraints_nodes(subpath_constraints)
